@@ -294,8 +294,8 @@ ENGINES["glist"]["traces"] = {
 }
 ENGINES["glist"]["trace_props"] = {"seq": ["C13", "C01", "C03", "C08"], "op": ["C13", "C14"], "index": ["C13"]}
 ENGINES["merkle"]["traces"] = {
-    "quick": [tr("any4", "trace_merkle.cfg", "Trace_Merkle.tla", "--n", 4, "--m", 2, "--histories", 40, "--steps", 80, "--maxops", 14, "--regime", "any", "--merge", "--snap")],
-    "thorough": [tr("any4", "trace_merkle.cfg", "Trace_Merkle.tla", "--n", 4, "--m", 2, "--histories", 100, "--steps", 60, "--maxops", 10, "--regime", "any", "--merge", "--snap")],
+    "quick": [tr("any4", "trace_merkle.cfg", "Trace_Merkle.tla", "--n", 4, "--m", 2, "--histories", 40, "--steps", 80, "--maxops", 14, "--regime", "any", "--merge", "--snap", "--wide", 40)],
+    "thorough": [tr("any4", "trace_merkle.cfg", "Trace_Merkle.tla", "--n", 4, "--m", 2, "--histories", 100, "--steps", 60, "--maxops", 10, "--regime", "any", "--merge", "--snap", "--wide", 100)],
 }
 ENGINES["merkle"]["trace_props"] = {"heads": ["C15", "C01", "C03", "C08"], "nodeset": ["C15", "C20"]}
 
